@@ -107,134 +107,200 @@ def filterIgnored (keys : List String) (d : List Op) : List Op :=
     | .s k => !keys.contains k
     | _ => true)
 
+abbrev Recur := Cfg → Differ → String → J → J → Except Err (List Op)
+
+/-- `diff_lists` item loop: `n` aligned items starting at `(i, j)` -/
+def itemLoop (recur : Recur) (cfg : Cfg) (subpath : String) (al bl : List J) :
+    Nat → Nat → Nat → List Op → Except Err (List Op)
+  | _, _, 0, di => .ok di
+  | i, j, n + 1, di => do
+      let av ← match al[i]? with
+        | some v => pure v
+        | none => throw (.index "a[i + k]")
+      let bv ← match bl[j]? with
+        | some v => pure v
+        | none => throw (.index "b[j + k]")
+      let di ← if !cfg.isAtomic av subpath then do
+          let cd ← recur cfg (cfg.differ subpath) subpath av bv
+          pure (seqPatch di i cd)
+        else pure di
+      itemLoop recur cfg subpath al bl (i + 1) (j + 1) n di
+
+/-- the per-snake body of `compute_diff_from_snakes`: patches for `k in range(n)` -/
+def snakePatches (recur : Recur) (cfg : Cfg) (dfr : Differ) (subpath : String) (al bl : List J)
+    (s : Snake) : Nat → List Op → Except Err (List Op)
+  | 0, di => .ok di
+  | m + 1, di => do
+      -- k runs 0 .. n-1 in increasing order: k = s.n - (m+1)
+      let k := s.n - (m + 1)
+      let av ← match al[s.i + k]? with
+        | some v => pure v
+        | none => throw (.index "a[i + k]")
+      let bv ← match bl[s.j + k]? with
+        | some v => pure v
+        | none => throw (.index "b[j + k]")
+      let cd ← recur cfg dfr subpath av bv
+      snakePatches recur cfg dfr subpath al bl s m (seqPatch di (s.i + k) cd)
+
+/-- `compute_diff_from_snakes` -/
+def fromSnakes (recur : Recur) (cfg : Cfg) (path : String) (al bl : List J) (snakes : List Snake) :
+    Except Err (List Op) := do
+  let subpath := path ++ "/*"
+  let dfr' := cfg.differ subpath
+  let step : List Op × Nat × Nat → Snake → Except Err (List Op × Nat × Nat) := fun st s => do
+    let (di, i0, j0) := st
+    let di := if s.i > i0 then seqRemoverange di i0 (s.i - i0) else di
+    let di := if s.j > j0 then seqAddrange di i0 (slice bl j0 s.j) else di
+    let di ← snakePatches recur cfg dfr' subpath al bl s s.n di
+    pure (di, s.i + s.n, s.j + s.n)
+  let (di, _, _) ← (snakes ++ [(⟨al.length, bl.length, 0⟩ : Snake)]).foldlM step ([], 0, 0)
+  pure di
+
+/-- `diff_sequence_multilevel` -/
+def multilevel (O : Oracle) (recur : Recur) (cfg : Cfg) (path : String) (al bl : List J) :
+    Except Err (List Op) := do
+  let names := cfg.preds (orSlash path)
+  let cmps := names.map O.pred
+  let snakes ← snakesML cmps al bl (names.length - 1) ⟨0, 0, al.length, bl.length⟩
+  fromSnakes recur cfg path al bl snakes
+
+/-- `diff_lists` -/
+def diffLists (O : Oracle) (recur : Recur) (cfg : Cfg) (path : String) (al bl : List J) :
+    Except Err (List Op) := do
+  let names := cfg.preds (orSlash path)
+  if names.length > 1 then multilevel O recur cfg path al bl
+  else do
+    let c0 ← match names[0]? with
+      | some n => pure n
+      | none => throw (.index "compares[0]")
+    let shallow ← diffSequence (O.pred c0) al bl
+    let subpath := path ++ "/*"
+    let step : List Op × Nat × Nat → Op → Except Err (List Op × Nat × Nat) := fun st e => do
+      let (di, i, j) := st
+      let n := e.idx - i
+      let (askip, bskip) ← countConsumed e
+      let di ← itemLoop recur cfg subpath al bl i j n di
+      pure (seqAppend di e, i + n + askip, j + n + bskip)
+    let (di, i, j) ← shallow.foldlM step ([], 0, 0)
+    if al.length < i then throw (.assertion "Cannot have negative remaining entries")
+    let n := al.length - i
+    if bl.length < j ∨ bl.length - j != n then throw (.assertion "Base/remote indexing mismatch")
+    itemLoop recur cfg subpath al bl i j n di
+
+/-- `diff_strings_linewise`: its own config, so the recursion only reaches `stringsByChar` -/
+def stringsLinewise (O : Oracle) (recur : Recur) (a b : List Char) : Except Err (List Op) :=
+  if a == b then .ok [] else
+    diffLists O recur linesCfg "" ((splitLines a).map J.str) ((splitLines b).map J.str)
+
+/-- one key present on both sides in `diff_dicts` -/
+def dictBothStep (recur : Recur) (cfg : Cfg) (path : String) (a b : List (String × J))
+    (di : List (String × Op)) (k : String) : Except Err (List (String × Op)) := do
+  let av := (lookupKV k a).getD .null
+  let bv := (lookupKV k b).getD .null
+  let subpath := path ++ "/" ++ k
+  if av.sameType bv && !cfg.isAtomic av subpath then do
+    let dd ← recur cfg (cfg.differ subpath) subpath av bv
+    mapPatch di k dd
+  else
+    if cfg.predGuard.contains (orSlash path) then
+      throw (.runtime "Found predicate(s) for path pointing to dict entry")
+    else if !J.pyEq av bv then mapAppend di (.replace k bv)
+    else pure di
+
+/-- `diff_dicts` -/
+def diffDicts (recur : Recur) (cfg : Cfg) (path : String) (a b : List (String × J)) :
+    Except Err (List Op) := do
+  let (rem, both, add) := listDiffKeys a b
+  let di : List (String × Op) := []
+  let di ← rem.foldlM (fun di k => mapAppend di (.remove k)) di
+  let di ← both.foldlM (dictBothStep recur cfg path a b) di
+  let di ← add.foldlM (fun di k => mapAppend di (.add k ((lookupKV k b).getD .null))) di
+  pure (mapValidated di)
+
+/-- `diff` -/
+def genericDiff (O : Oracle) (recur : Recur) (cfg : Cfg) (path : String) (a b : J) : Except Err (List Op) :=
+  match a, b with
+  | .arr al, .arr bl => diffLists O recur cfg path al bl
+  | .obj ak, .obj bk => diffDicts recur cfg path ak bk
+  | .str sa, .str sb => stringsLinewise O recur sa sb
+  | _, _ => .error (.runtime "Can currently only diff list, dict, or str objects.")
+
+/-- `add_mime_diff` (its `diff` call uses a fresh default config) -/
+def addMimeDiff (O : Oracle) (recur : Recur) (key : String) (av bv : J) (di : List (String × Op)) :
+    Except Err (List (String × Op)) :=
+  let sameStr := match av, bv with
+    | .str x, .str y => x == y
+    | _, _ => false
+  if sameStr then .ok di
+  else if mimeSplit key then do
+    let dd ← genericDiff O recur defaultCfg "" av bv
+    mapPatch di key dd
+  else if !J.pyEq av bv then mapAppend di (.replace key bv)
+  else .ok di
+
+/-- `diff_mime_bundle` -/
+def mimeBundle (O : Oracle) (recur : Recur) (a b : J) : Except Err (List Op) :=
+  match a, b with
+  | .obj ak, .obj bk => do
+      let (rem, both, add) := listDiffKeys ak bk
+      let di : List (String × Op) := []
+      let di ← rem.foldlM (fun di k => mapAppend di (.remove k)) di
+      let di ← both.foldlM (fun di k =>
+        addMimeDiff O recur k ((lookupKV k ak).getD .null) ((lookupKV k bk).getD .null) di) di
+      let di ← add.foldlM (fun di k => mapAppend di (.add k ((lookupKV k bk).getD .null))) di
+      pure (mapValidated di)
+  | _, _ => .error (.typeErr "MIME bundles should be dictionaries")
+
+/-- `diff_attachments` -/
+def attachmentsDiff (O : Oracle) (recur : Recur) (path : String) (a b : J) : Except Err (List Op) :=
+  if path != "/cells/*/attachments" then .error (.assertion "Invalid path for attachment") else
+  match a, b with
+  | .obj ak, .obj bk => do
+      let (rem, both, add) := listDiffKeys ak bk
+      let di : List (String × Op) := []
+      let di ← rem.foldlM (fun di k => mapAppend di (.remove k)) di
+      let di ← both.foldlM (fun di k => do
+        let dd ← mimeBundle O recur ((lookupKV k ak).getD .null) ((lookupKV k bk).getD .null)
+        mapPatch di k dd) di
+      let di ← add.foldlM (fun di k => mapAppend di (.add k ((lookupKV k bk).getD .null))) di
+      pure (mapValidated di)
+  | _, _ => .error (.typeErr "Attachments stores should be dictionaries")
+
+/-- `diff_single_outputs` -/
+def singleOutputs (O : Oracle) (recur : Recur) (cfg : Cfg) (path : String) (a b : J) : Except Err (List Op) :=
+  if path != "/cells/*/outputs/*" then .error (.assertion "Invalid path for ouput") else
+  match a, b with
+  | .obj ak, .obj bk =>
+      match lookupKV "output_type" ak, lookupKV "output_type" bk with
+      | some ta, some tb =>
+        if !J.pyEq ta tb then .error (.assertion "cannot diff outputs of different types")
+        else if J.pyEq ta (.str "execute_result".toList) || J.pyEq ta (.str "display_data".toList) then
+          match lookupKV "data" ak, lookupKV "data" bk with
+          | some da, some db => do
+              let dconj ← genericDiff O recur cfg path (.obj (eraseKV "data" ak)) (.obj (eraseKV "data" bk))
+              let di ← dconj.foldlM mapAppend ([] : List (String × Op))
+              let dd ← mimeBundle O recur da db
+              let di ← mapPatch di "data" dd
+              pure (mapValidated di)
+          | _, _ => .error (.key "data")
+        else genericDiff O recur cfg path a b
+      | _, _ => .error (.key "output_type")   -- AttributeError/KeyError in Python
+  | _, _ => .error (.typeErr "outputs should be dictionaries")
+
 /-- All differs, with recursion fuel (decreases on every descent into a sub-document). -/
 def diffAt (O : Oracle) : Nat → Cfg → Differ → String → J → J → Except Err (List Op)
   | 0, _, _, _, _, _ => .error .fuel
   | fuel + 1, cfg, dfr, path, a, b =>
-    let recur := diffAt O fuel
-    -- `diff_lists` item loop: `n` aligned items starting at `(i, j)`
-    let rec itemLoop (cfg : Cfg) (subpath : String) (al bl : List J) (i j : Nat) :
-        Nat → List Op → Except Err (List Op)
-      | 0, di => .ok di
-      | n + 1, di => do
-          let av ← match al[i]? with
-            | some v => pure v
-            | none => throw (.index "a[i + k]")
-          let bv ← match bl[j]? with
-            | some v => pure v
-            | none => throw (.index "b[j + k]")
-          let di ← if !cfg.isAtomic av subpath then do
-              let cd ← recur cfg (cfg.differ subpath) subpath av bv
-              pure (seqPatch di i cd)
-            else pure di
-          itemLoop cfg subpath al bl (i + 1) (j + 1) n di
-    -- `compute_diff_from_snakes`
-    let fromSnakes (cfg : Cfg) (path : String) (al bl : List J) (snakes : List Snake) :
-        Except Err (List Op) := do
-      let subpath := path ++ "/*"
-      let dfr' := cfg.differ subpath
-      let step : List Op × Nat × Nat → Snake → Except Err (List Op × Nat × Nat) := fun st s => do
-        let (di, i0, j0) := st
-        let di := if s.i > i0 then seqRemoverange di i0 (s.i - i0) else di
-        let di := if s.j > j0 then seqAddrange di i0 (slice bl j0 s.j) else di
-        let di ← (List.range s.n).foldlM (fun di k => do
-          let av ← match al[s.i + k]? with
-            | some v => pure v
-            | none => throw (.index "a[i + k]")
-          let bv ← match bl[s.j + k]? with
-            | some v => pure v
-            | none => throw (.index "b[j + k]")
-          let cd ← recur cfg dfr' subpath av bv
-          pure (seqPatch di (s.i + k) cd)) di
-        pure (di, s.i + s.n, s.j + s.n)
-      let (di, _, _) ← (snakes ++ [(⟨al.length, bl.length, 0⟩ : Snake)]).foldlM step ([], 0, 0)
-      pure di
-    let multilevel (cfg : Cfg) (path : String) (al bl : List J) : Except Err (List Op) := do
-      let names := cfg.preds (orSlash path)
-      let cmps := names.map O.pred
-      let snakes ← snakesML cmps al bl (names.length - 1) ⟨0, 0, al.length, bl.length⟩
-      fromSnakes cfg path al bl snakes
-    let diffLists (cfg : Cfg) (path : String) (al bl : List J) : Except Err (List Op) := do
-      let names := cfg.preds (orSlash path)
-      if names.length > 1 then multilevel cfg path al bl
-      else do
-        let c0 ← match names[0]? with
-          | some n => pure n
-          | none => throw (.index "compares[0]")
-        let shallow ← diffSequence (O.pred c0) al bl
-        let subpath := path ++ "/*"
-        let step : List Op × Nat × Nat → Op → Except Err (List Op × Nat × Nat) := fun st e => do
-          let (di, i, j) := st
-          let n := e.idx - i
-          let (askip, bskip) ← countConsumed e
-          let di ← itemLoop cfg subpath al bl i j n di
-          pure (seqAppend di e, i + n + askip, j + n + bskip)
-        let (di, i, j) ← shallow.foldlM step ([], 0, 0)
-        if al.length < i then throw (.assertion "Cannot have negative remaining entries")
-        let n := al.length - i
-        if bl.length < j ∨ bl.length - j != n then throw (.assertion "Base/remote indexing mismatch")
-        let di ← itemLoop cfg subpath al bl i j n di
-        pure di
-    let stringsLinewise (a b : List Char) : Except Err (List Op) :=
-      if a == b then .ok [] else
-        let la := (splitLines a).map J.str
-        let lb := (splitLines b).map J.str
-        diffLists linesCfg "" la lb
-    let diffDicts (cfg : Cfg) (path : String) (a b : List (String × J)) : Except Err (List Op) := do
-      let (rem, both, add) := listDiffKeys a b
-      let di : List (String × Op) := []
-      let di ← rem.foldlM (fun di k => mapAppend di (.remove k)) di
-      let di ← both.foldlM (fun di k => do
-        let av := (lookupKV k a).getD .null
-        let bv := (lookupKV k b).getD .null
-        let subpath := path ++ "/" ++ k
-        if av.sameType bv && !cfg.isAtomic av subpath then do
-          let dd ← recur cfg (cfg.differ subpath) subpath av bv
-          mapPatch di k dd
-        else
-          if cfg.predGuard.contains (orSlash path) then
-            throw (.runtime "Found predicate(s) for path pointing to dict entry")
-          else if !J.pyEq av bv then mapAppend di (.replace k bv)
-          else pure di) di
-      let di ← add.foldlM (fun di k => mapAppend di (.add k ((lookupKV k b).getD .null))) di
-      pure (mapValidated di)
-    let generic (cfg : Cfg) (path : String) (a b : J) : Except Err (List Op) :=
-      match a, b with
-      | .arr al, .arr bl => diffLists cfg path al bl
-      | .obj ak, .obj bk => diffDicts cfg path ak bk
-      | .str sa, .str sb => stringsLinewise sa sb
-      | _, _ => .error (.runtime "Can currently only diff list, dict, or str objects.")
-    let addMimeDiff (key : String) (av bv : J) (di : List (String × Op)) :
-        Except Err (List (String × Op)) :=
-      let sameStr := match av, bv with
-        | .str x, .str y => x == y
-        | _, _ => false
-      if sameStr then .ok di
-      else if mimeSplit key then do
-        let dd ← generic defaultCfg "" av bv
-        mapPatch di key dd
-      else if !J.pyEq av bv then mapAppend di (.replace key bv)
-      else .ok di
-    let mimeBundle (a b : J) : Except Err (List Op) :=
-      match a, b with
-      | .obj ak, .obj bk => do
-          let (rem, both, add) := listDiffKeys ak bk
-          let di : List (String × Op) := []
-          let di ← rem.foldlM (fun di k => mapAppend di (.remove k)) di
-          let di ← both.foldlM (fun di k =>
-            addMimeDiff k ((lookupKV k ak).getD .null) ((lookupKV k bk).getD .null) di) di
-          let di ← add.foldlM (fun di k => mapAppend di (.add k ((lookupKV k bk).getD .null))) di
-          pure (mapValidated di)
-      | _, _ => .error (.typeErr "MIME bundles should be dictionaries")
+    let recur : Recur := diffAt O fuel
     match dfr with
-    | .generic => generic cfg path a b
+    | .generic => genericDiff O recur cfg path a b
     | .multilevel =>
         match a, b with
-        | .arr al, .arr bl => multilevel cfg path al bl
+        | .arr al, .arr bl => multilevel O recur cfg path al bl
         | _, _ => .error (.typeErr "diff_sequence_multilevel on non-lists")
     | .stringLines =>
         match a, b with
-        | .str sa, .str sb => stringsLinewise sa sb
+        | .str sa, .str sb => stringsLinewise O recur sa sb
         | _, _ => .error (.assertion "Arguments need to be string types")
     | .stringsByChar =>
         match a, b with
@@ -244,40 +310,8 @@ def diffAt (O : Oracle) : Nat → Cfg → Differ → String → J → J → Exce
     | .ignoreKeys inner keys => do
         let d ← recur cfg inner path a b
         pure (filterIgnored keys d)
-    | .attachments =>
-        if path != "/cells/*/attachments" then .error (.assertion "Invalid path for attachment") else
-        match a, b with
-        | .obj ak, .obj bk => do
-            let (rem, both, add) := listDiffKeys ak bk
-            let di : List (String × Op) := []
-            let di ← rem.foldlM (fun di k => mapAppend di (.remove k)) di
-            let di ← both.foldlM (fun di k => do
-              let dd ← mimeBundle ((lookupKV k ak).getD .null) ((lookupKV k bk).getD .null)
-              mapPatch di k dd) di
-            let di ← add.foldlM (fun di k => mapAppend di (.add k ((lookupKV k bk).getD .null))) di
-            pure (mapValidated di)
-        | _, _ => .error (.typeErr "Attachments stores should be dictionaries")
-    | .singleOutputs =>
-        if path != "/cells/*/outputs/*" then .error (.assertion "Invalid path for ouput") else
-        match a, b with
-        | .obj ak, .obj bk =>
-            let ota := lookupKV "output_type" ak
-            let otb := lookupKV "output_type" bk
-            match ota, otb with
-            | some ta, some tb =>
-              if !J.pyEq ta tb then .error (.assertion "cannot diff outputs of different types")
-              else if J.pyEq ta (.str "execute_result".toList) || J.pyEq ta (.str "display_data".toList) then
-                match lookupKV "data" ak, lookupKV "data" bk with
-                | some da, some db => do
-                    let dconj ← generic defaultCfg "" (.obj (eraseKV "data" ak)) (.obj (eraseKV "data" bk))
-                    let di ← dconj.foldlM mapAppend ([] : List (String × Op))
-                    let dd ← mimeBundle da db
-                    let di ← mapPatch di "data" dd
-                    pure (mapValidated di)
-                | _, _ => .error (.key "data")
-              else generic cfg path a b
-            | _, _ => .error (.key "output_type")   -- AttributeError/KeyError in Python
-        | _, _ => .error (.typeErr "outputs should be dictionaries")
+    | .attachments => attachmentsDiff O recur path a b
+    | .singleOutputs => singleOutputs O recur cfg path a b
 
 /-- fuel used by the driver; deeper documents than this are outside the model -/
 def bigFuel : Nat := 100000
